@@ -214,13 +214,20 @@ def run(P, rep, tier):
                        'with the typing relation for floating operands (R07.6); typed patterns over all units find mixed-sign conditionals (R07.3) and '
                        'narrowing between the folder and its consumers (R07.7). Per path of each arm the set of operands handed to the folder is compared with the operands '
                        'run-time evaluation evaluates (R07.9: unselected arm of ?:, right operand of a decided && ||), and the writes of the relocation '
-                       'out-parameter are counted and matched with the operand that can denote an address and with its coefficient in the result (R07.10). Equality of values for whole expressions is the consequence by '
+                       'out-parameter are counted and matched with the operand that can denote an address and with its coefficient in the result (R07.10). '
+                       'The floating folder is judged per arm and per floating node type for the format in which each value is exact: operands not rounded below their type, + - * / carried out '
+                       'in the node\'s type (or wide enough for the second rounding to be exact), casts and literals rounded exactly once to the node\'s type, return type wide enough (R07.13). '
+                       'The static-initializer back end, which converts the folded value to the object\'s type, is covered by the obligations of C05 R05.2/R05.4 re-issued as R07.12. '
+                       'Equality of values for whole expressions is the consequence by '
                        'structural induction and is not decided here.')
     rep.assumptions += ['typing relation of each kind as produced by add_type (R01.2)',
                         'children satisfy the induction hypothesis: eval of a child returns its value sign/zero-extended from the child type to 64 bits',
                         'eval/eval2/eval_double/is_const_expr are pure (add_type is idempotent)',
                         'signed overflow in a constant expression is undefined: no reduction is demanded for signed node types',
-                        'an address constant reaches the folder with the pointer operand in lhs of + and - (new_add/new_sub canonical form)']
+                        'an address constant reaches the folder with the pointer operand in lhs of + and - (new_add/new_sub canonical form)',
+                        'R07.13: the host compiles float / double / long double as IEEE binary32 / binary64 / x87 extended (24 / 53 / 64 digits) with FLT_EVAL_METHOD 0 and round-to-nearest, '
+                        'the same formats the generated code uses; the operands of a floating + - * / and the arms of ?: have the node\'s type (usual arithmetic conversions, R01.2); '
+                        'rounding the result of one + - * / carried out with at least 2p+2 digits to p digits equals the operation carried out with p digits (Figueroa 1995)']
     r078(F, rep)
     r072(F, rep)
     r071(F, P, rep)
@@ -1542,11 +1549,13 @@ def _roundings(chain, p_src):
     return out
 
 
-def _judge_conv(rs, p_src, p_t):
-    """a value exact in p_src digits must arrive as the value of a node whose type has p_t digits: (construct, message) when wrong"""
+def _judge_conv(rs, p_src, p_t, p_node=None):
+    """a value exact in p_src digits must arrive as the value of a node whose type has p_t digits (p_node: the digits of the node's type
+    when the return type of the folder lets fewer through): (construct, message) when wrong"""
     tn = PREC_NAME[p_t]
     if rs and min(rs) < p_t:
-        return 'rounded-below-%s' % tn.replace(' ', '-'), 'is rounded to %s although the node has type %s: digits the run-time value has are lost' % (PREC_NAME[min(rs)], tn)
+        return ('rounded-to-%s' % PREC_NAME[min(rs)].replace(' ', '-'),
+                'is rounded to %s although the node has type %s: digits the run-time value has are lost' % (PREC_NAME[min(rs)], PREC_NAME[p_node or p_t]))
     if p_src <= p_t:
         return None          # every rounding recorded is below p_src <= p_t: handled above
     if not rs or rs[-1] != p_t:
@@ -1663,9 +1672,9 @@ def r0713(F, P, rep):
                         if p_h < p_eff:
                             res = ('computed-in-%s' % PREC_NAME[p_h].replace(' ', '-'), 'is computed in %s although the node has type %s' % (PREC_NAME[p_h], PREC_NAME[p_t]))
                         elif p_h == p_eff:
-                            res = _judge_conv(rs, p_eff, p_eff)
+                            res = _judge_conv(rs, p_eff, p_eff, p_t)
                         else:
-                            res = _judge_conv(rs, p_h, p_eff)
+                            res = _judge_conv(rs, p_h, p_eff, p_t)
                             if res is None and p_h < 2 * p_eff + 2:
                                 res = ('rounded-twice:%s-%s' % (PREC_NAME[p_h].replace(' ', '-'), PREC_NAME[p_eff].replace(' ', '-')),
                                        'is computed in %s (%d digits) and then rounded to %s (%d digits): the operation rounds once and the conversion a second time, which differs from '
@@ -1683,12 +1692,15 @@ def r0713(F, P, rep):
                         rs = _roundings(chain, p_eff)
                         if rs is None:
                             und = 'the result %s leaves the floating formats' % show(v); continue
-                        res = _judge_conv(rs, p_eff, p_eff)
+                        res = _judge_conv(rs, p_eff, p_eff, p_t)
                     elif kind in FLO_PASS:
-                        e = operand(v, FLO_PASS[kind], p_eff)
-                        if e and e[0] == '?':
-                            und = e[1]; continue
-                        res = (e[0].replace('operand-', ''), e[1]) if e else None
+                        r = as_rec(core)
+                        if not r or core[0] != 'call' or r[0] != 'eval_double' or r[1] not in FLO_PASS[kind]:
+                            und = 'the arm returns %s' % show(v); continue
+                        rs = _roundings(chain, p_eff)
+                        if rs is None:
+                            und = 'the result %s leaves the floating formats' % show(v); continue
+                        res = _judge_conv(rs, p_eff, p_eff, p_t)
                     elif kind == 'ND_CAST':
                         r = as_rec(core)
                         if not r or core[0] != 'call' or r[1] != 'lhs' or r[0] not in ('eval_double',) + INT_FOLD:
@@ -1699,14 +1711,14 @@ def r0713(F, P, rep):
                         else:
                             if ot in FLO_PREC:
                                 continue          # the integer folder on a floating operand: R07.6
-                            p_src = 64
-                            if chain and chain[0][1][0] in ('i', 'b'):
-                                p_src = min(_int_digits(chain[0][1]), _int_digits(('b',) if ot == 'bool' else ('i', F.trec[ot]['size'] * 8, not F.trec[ot]['is_unsigned'])))
-                                chain = [(chain[0][0], ('f', 80))] + chain[1:] if chain[0][0][0] == 'f' else chain
+                            # the operand's 64-bit integer value; a 64-bit change of signedness before the conversion keeps it (which one is right: R07.8)
+                            while chain and chain[0][0][0] == 'i' and chain[0][0][1] >= 64:
+                                chain = chain[1:]
+                            p_src = _int_digits(('b',) if ot == 'bool' else ('i', F.trec[ot]['size'] * 8, not F.trec[ot]['is_unsigned']))
                         rs = _roundings(chain, p_src)
                         if rs is None:
                             und = 'the result %s leaves the floating formats' % show(v); continue
-                        res = _judge_conv(rs, p_src, p_eff)
+                        res = _judge_conv(rs, p_src, p_eff, p_t)
                         if res:
                             ots.setdefault(res[0], []).append(ot)
                             res = (res[0], res[1] + ' (operand types %s)' % ','.join(ots[res[0]]))
@@ -1716,7 +1728,7 @@ def r0713(F, P, rep):
                         rs = _roundings(chain, PREC[fval_t[1]])
                         if rs is None:
                             und = 'the result %s leaves the floating formats' % show(v); continue
-                        res = _judge_conv(rs, PREC[fval_t[1]], p_eff)
+                        res = _judge_conv(rs, PREC[fval_t[1]], p_eff, p_t)
                         if res and res[0].startswith('not-rounded'):
                             if tok_round is None:
                                 tok_round = _tokenizer_may_round(P) or ''
@@ -1800,7 +1812,8 @@ def r073(P, rep):
 # ------------------------------------------------------------------ R07.7 ---
 def r077(F, P, rep):
     rep.rule('R07.7', 'between the folder and each consumer no intermediate object is narrower than the sink: a folded value stored in a narrow local '
-                      'is not widened again, const_expr returns the folder\'s value unchanged, and bit-field masks of static initializers are computed in 64 bits', floor=10)
+                      'is not widened again, a 64-bit local holding it is not cut and widened again where it is used, const_expr returns the folder\'s value unchanged, '
+                      'and bit-field masks of static initializers are computed in 64 bits', floor=10)
     u = F.u
     # (a) const_expr returns eval(conditional(...)) unchanged
     try:
@@ -1857,6 +1870,16 @@ def r077(F, P, rep):
                                rewiden[0], tshow(rewiden[1]), sink), where='%s:%d' % (un, c.line))
                     continue
                 if narrowed is None:
+                    # the value is kept in full width; a local that receives it must not be cut and widened again where it is used
+                    # (`uint64_t val = eval2(..); write_buf(p, (int)val, size);`)
+                    cut = _wide_local_cut(fd, c)
+                    if cut:
+                        var, lo, W, use = cut
+                        rep.ob('R07.7', key + '/local-%s-narrowed-then-widened' % var.name, False,
+                               'the folded value is held in the 64-bit local `%s`, cut to %d bits where it is used and widened to %s again for `%s`: the consumer receives a value that lost '
+                               'its upper bits although it could hold them (`static long x = 0x100000000;` style values are truncated)' % (var.name, lo, tshow(W), _dest_name(use)),
+                               where='%s:%d' % (un, use.line))
+                        continue
                     rep.ob('R07.7', key, True, '', where='%s:%d' % (un, c.line))
                     continue
                 T, castnode = narrowed
@@ -1910,6 +1933,41 @@ def r077(F, P, rep):
                        where='%s:%d' % (un, n.line))
     if nshift < 2:
         rep.undecided('R07.7', 'all:bitfield-shifts', 'only %d shifts by bit_width/bit_offset found' % nshift)
+
+
+def _wide_local_cut(fd, c):
+    """the producer call c initialises / is assigned to a local of a 64-bit integer type: a use of that local under a chain of integral conversions
+    that narrows below 64 bits and widens again -> (VarDecl, narrow bits, wide type, outermost conversion node); None otherwise"""
+    x = c      # the node directly under the declaration / assignment
+    while x.parent is not None and x.parent.kind in ('ParenExpr', 'ImplicitCastExpr', 'CStyleCastExpr'):
+        if x.parent.kind != 'ParenExpr' and x.parent.cast_kind not in ('IntegralCast', 'NoOp'):
+            return None
+        x = x.parent
+    var = _stored_local(x)
+    if var is None:
+        return None
+    T = ctype(var.dtype)
+    if T[0] != 'i' or T[1] < 64:
+        return None
+    for r in fd.walk():
+        if r.kind != 'DeclRefExpr' or r.ref_id != var.id:
+            continue
+        q = r.parent
+        while q is not None and (q.kind == 'ParenExpr' or (q.kind == 'ImplicitCastExpr' and q.cast_kind in ('LValueToRValue', 'NoOp'))):
+            q = q.parent
+        lo = 64
+        while q is not None and q.kind in ('ParenExpr', 'ImplicitCastExpr', 'CStyleCastExpr'):
+            if q.kind != 'ParenExpr':
+                if q.cast_kind != 'IntegralCast':
+                    break
+                T2 = ctype(q.dtype)
+                if T2[0] != 'i':
+                    break
+                if T2[1] > lo:
+                    return var, lo, T2, q
+                lo = min(lo, T2[1])
+            q = q.parent
+    return None
 
 
 def _sink_name(c):
